@@ -15,7 +15,7 @@ theorem step_pack (a a' : ArraySized) (op : Spec.SSeq.Op Elem) (m m' : Mem) (o :
     MemSame a.triple m (a.step op m).2.2 ∧
     (a.refusal op m ≠ none → (a.step op m).2.1 = a) ∧
     (a.refusal op m = some .errAlloc → (m.allocT a.triple).1 = false) ∧
-    (a.refusal op m = some .errMaxCapacity → a.AtLimit) := by
+    (a.refusal op m = some .errMaxCapacity → a.AtLimit ∧ a.size = a.capacity) := by
   have hstep : a.step op m = (o, a', m') := Prod.ext hs1 (Prod.ext hs2 hs3)
   have hr : a.refusal op m = none := by
     unfold refusal
@@ -36,7 +36,7 @@ theorem step_refines (a : ArraySized) (op : Spec.SSeq.Op Elem) (m : Mem) (h : a.
     MemSame a.triple m (a.step op m).2.2 ∧
     (a.refusal op m ≠ none → (a.step op m).2.1 = a) ∧
     (a.refusal op m = some .errAlloc → (m.allocT a.triple).1 = false) ∧
-    (a.refusal op m = some .errMaxCapacity → a.AtLimit) := by
+    (a.refusal op m = some .errMaxCapacity → a.AtLimit ∧ a.size = a.capacity) := by
   cases op with
   | add x =>
     rcases add_spec a x m h hw with ⟨h1, h2, h3, h4, h5, h6, h7, _⟩ | ⟨h1, h2, h3, h4, h5, h6, _⟩
@@ -52,7 +52,7 @@ theorem step_refines (a : ArraySized) (op : Spec.SSeq.Op Elem) (m : Mem) (h : a.
       · have hr : a.refusal (.add x) m = some .errMaxCapacity := by simp [refusal, step, h1]
         rw [hr]
         simp only [step, Spec.SSeq.step, h1, h2]
-        exact ⟨trivial, trivial, h, trivial, trivial, h3, fun _ => trivial, nofun, fun _ => h6 h1⟩
+        exact ⟨trivial, trivial, h, trivial, trivial, h3, fun _ => trivial, nofun, fun _ => ⟨h6 h1, h4⟩⟩
   | addAt x i =>
     by_cases hi : i ≤ a.size
     · rcases addAt_spec a x i m h hw hi with ⟨h1, h2, h3, h4, h5, h6, h7, _⟩ | ⟨h1, h2, h3, h4, h5, h6, _⟩
@@ -68,7 +68,7 @@ theorem step_refines (a : ArraySized) (op : Spec.SSeq.Op Elem) (m : Mem) (h : a.
         · have hr : a.refusal (.addAt x i) m = some .errMaxCapacity := by simp [refusal, step, h1]
           rw [hr]
           simp only [step, Spec.SSeq.step, Spec.SSeq.addAt, abs_length, hi, if_true, h1, h2]
-          exact ⟨trivial, trivial, h, trivial, trivial, h3, fun _ => trivial, nofun, fun _ => h6 h1⟩
+          exact ⟨trivial, trivial, h, trivial, trivial, h3, fun _ => trivial, nofun, fun _ => ⟨h6 h1, h4⟩⟩
     · apply step_pack a a _ m m { st := some .errOutOfRange }
       · simp only [step, addAt_inert a x i m (by omega)]
       · simp only [step, addAt_inert a x i m (by omega)]
@@ -336,11 +336,11 @@ theorem step_refines (a : ArraySized) (op : Spec.SSeq.Op Elem) (m : Mem) (h : a.
     · rfl
     · exact MemSame.refl _ m
   | sort sortFn =>
-    obtain ⟨s1, s2, s3, s4, s5, s6⟩ := sort_spec a sortFn h (hw a.abs)
-    apply step_pack a (a.sort sortFn) _ m m {}
+    obtain ⟨s1, s2, s3, s4, s5, s6, s7, _⟩ := sort_spec a sortFn m h (hw a.abs)
+    apply step_pack a (a.sort sortFn m).1 _ m m {}
     · rfl
     · rfl
-    · rfl
+    · exact s7
     · exact ⟨by simp, by simp⟩
     · simp only [Spec.SSeq.step]; rw [s2]
     · exact s1
